@@ -255,6 +255,7 @@ impl<'a> Gen<'a> {
             }
             Ty::Dict => {
                 let n = self.t.below(4);
+                let n = if n == 0 && !self.cfg.sw.empty_list { 1 } else { n };
                 let keys = ["a", "b", "key", "zz"];
                 let mut kvs = Vec::new();
                 for k in keys.iter().take(n) {
@@ -420,7 +421,15 @@ impl<'a> Gen<'a> {
                 let args = tys.iter().map(|t| self.expr(t, depth + 1, 0)).collect();
                 Expr::Variant(*e, v, args)
             }
-            Ty::Tuple(ts) => Expr::TupleLit(ts.clone().iter().map(|t| self.expr(t, depth + 1, 0)).collect()),
+            Ty::Tuple(ts) => Expr::TupleLit(
+                ts.clone()
+                    .iter()
+                    .map(|t| {
+                        let e = self.expr(t, depth + 1, 0);
+                        self.no_bare_move(e, t)
+                    })
+                    .collect(),
+            ),
             other => self.literal(other, depth),
         }
     }
@@ -1178,6 +1187,9 @@ impl<'a> Gen<'a> {
 
     fn let_of(&mut self, ty: Ty, depth: u32) -> Stmt {
         let mut ty = ty;
+        if ty == Ty::Dict && !self.cfg.sw.dict_in_nested_block && (depth > 0 || self.scopes.len() > 1) {
+            ty = Ty::Int;
+        }
         self.in_let_init = true;
         let mut e = self.expr(&ty, depth, 0);
         self.in_let_init = false;
@@ -1206,7 +1218,10 @@ impl<'a> Gen<'a> {
         }
         let shadowing = name.is_some();
         let name = name.unwrap_or_else(|| self.fresh());
-        let kind = if shadowing {
+        let kind = if matches!(ty, Ty::Tuple(_)) {
+            // the checker rejects `mut` tuples ("Tuples are immutable")
+            if self.t.chance(1, 2) { LetKind::Let } else if shadowing { LetKind::Let } else { LetKind::Plain }
+        } else if shadowing {
             if self.t.chance(1, 2) { LetKind::Mut } else { LetKind::Let }
         } else {
             match self.t.below(4) {
@@ -1449,6 +1464,9 @@ impl<'a> Gen<'a> {
             }
             9 => {
                 let cands = self.mutable_vars_of(&Ty::Dict);
+                if cands.is_empty() && !self.cfg.sw.dict_in_nested_block && (depth > 0 || self.scopes.len() > 1) {
+                    return vec![self.print_stmt(depth)];
+                }
                 if cands.is_empty() {
                     let name = self.fresh();
                     let e = self.literal(&Ty::Dict, 0);
